@@ -15,6 +15,7 @@ mod mons;
 mod props_e1;
 mod props_e2;
 mod refck;
+mod seq_counter;
 mod seq_fsreq;
 mod seq_segments;
 mod world;
@@ -72,7 +73,7 @@ fn main() {
         "C10" => props_e1::c10(&args),
         "C11" => props_e2::c11(&args),
         "C12" => en_paths::run(&args),
-        "C13" => seq_fsreq::run(&args),
+        "C13" => props_e1::c13(&args),
         "C14" => en_checksum::run(&args),
         "C15" => en_crc::run(&args),
         "C16" => en_udp::run(&args),
